@@ -5,11 +5,12 @@ ROOT = os.path.dirname(os.path.dirname(os.path.abspath(__file__)))
 sys.path.insert(0, ROOT)
 props = [json.loads(l) for l in open(os.path.join(ROOT, "properties.jsonl"))]
 PENDING = json.load(open(os.path.join(ROOT, "tools", "not_applicable.json")))
+READY = json.load(open(os.path.join(ROOT, "tools", "ready.json")))   # properties whose check the lead has accepted
 checks, na = [], []
 for p in props:
     pid = p["id"]
     path = os.path.join(ROOT, "checks", pid + ".py")
-    if not os.path.exists(path):
+    if not os.path.exists(path) or pid not in READY:
         na.append({"property_id": pid, "reason": PENDING.get(pid, "no check built yet for this property (see DESIGN.md §6 for the planned model and theorems)")})
         continue
     cfg = importlib.import_module("checks." + pid).CHECK
@@ -19,7 +20,7 @@ for p in props:
         "thorough_cmd": "./check %s --tier thorough" % pid,
         "evidence_file": "/verif/evidence/%s.json" % pid,
         "replay_cmd_template": "./check replay %s {path}" % pid,
-        "engine": getattr(cfg, "harness_pkg", "") or "",
+        "engine": "+".join(cfg.harness_pkg) if isinstance(getattr(cfg, "harness_pkg", ""), list) else (getattr(cfg, "harness_pkg", "") or ""),
         "level_claimed": {"category": "proof", "text": cfg.level_text, "design_ref": cfg.design_ref},
         "level_note": cfg.level_note,
         "technique": cfg.technique,
